@@ -106,7 +106,7 @@ theorem arg_parse (a : Expr) (k : Nat) (Z : List Tok) (hc : PECanon a = true) (h
 theorem endFollow_more (rest : Args) (Y : List Tok) : EndFollow (moreToks rest ++ .sym .rparen :: Y) := by
   cases rest with
   | nil => exact Or.inr (Or.inl ⟨Y, by simp [moreToks]⟩)
-  | cons e r => exact Or.inr (Or.inr ⟨printCtx true e ++ (moreToks r ++ .sym .rparen :: Y), by simp [moreToks]⟩)
+  | cons e r => exact Or.inr (Or.inr (Or.inl ⟨printCtx true e ++ (moreToks r ++ .sym .rparen :: Y), by simp [moreToks]⟩))
 
 mutual
 theorem parse_ok : (e : Expr) → PECanon e = true → AtomsOK e = true → ∀ f, weight e ≤ f →
